@@ -527,7 +527,7 @@ func clipS(s string) string {
 func runWhole(c *fw.Ctx, w which, idx int, pc probeCase) {
 	vals := wholeValues(pc.probe.Type)
 	n := 0
-	mode := func() int { n++; return (idx + n) % filedrv.NumModes }
+	mode := func() int { n++; return (idx + n) % filedrv.NumReadModes }
 	for _, a := range vals {
 		runOne(c, w, pc, []reflect.Value{a}, config{comp: "null", bs: 65536, mode: mode()})
 		for _, b := range vals {
@@ -553,7 +553,7 @@ func runProbe(c *fw.Ctx, w which, idx int, pc probeCase) {
 	}
 	big := config{comp: "null", bs: 65536}
 	n := 0
-	mode := func() int { n++; return (idx + n) % filedrv.NumModes }
+	mode := func() int { n++; return (idx + n) % filedrv.NumReadModes }
 	// (A) every sequence of length <= 2 over the full alphabet
 	cfgA := big
 	cfgA.mode = mode()
@@ -657,7 +657,7 @@ func rule(tier string, what string) string {
 	if tier == "thorough" {
 		d = "depth<=1 statically (320 generated types through the real generic Encoder[T]) and dynamically; depth 2 (256 expressions × 4 tags) and depth 3 (1024 expressions) dynamically"
 	}
-	return "probe struct types struct{c0; F τ `tag`; c1; c2} with canary fields, τ over 16 leaves {bool,int,int16,int32,int64,float32,float64,string,[]byte,time.Time,null.Int/Bool/Float/String/Time,Rec} and wrappers {*τ,[]τ,map[string]τ,struct{X τ}}: " + d + "; per type: every value sequence of length<=2 over the full value alphabet, every length-3 sequence over 3 representatives × {null,deflate,snappy} × block size {0,1,size of two records,65536} × every subset of flush positions, reader chunking rotating over {full,1-byte,data+EOF}; every length-3 sequence again with a flush after each record where the writer refuses the first write of one of the flushes once (nothing consumed) and the flush is retried; 66 multi-field record types (every arrangement of six *int64 / *string fields, and two mixed ones with slices, maps and nested pointers) with 4 value patterns in sequences of <=3 (allocation order inside one record); for the string and []byte leaves also records of 66–70 kB a 400-record block of >64 KiB (larger than the reader's read-ahead chunk) and a block of 9000 identical records (best-case compression ratio) under every codec; the file is read into T, into a fresh *T, and into a caller-owned *T already used by an earlier read that its callback abandoned at the last record; every record is compared twice: as deep-copied inside the callback, and as a plain struct copy kept by the caller until ReadFile has returned (banks left open); " + what + "; a case is one (type, sequence, configuration); non-trivial = encoding succeeded and the output reached the oracle"
+	return "probe struct types struct{c0; F τ `tag`; c1; c2} with canary fields, τ over 16 leaves {bool,int,int16,int32,int64,float32,float64,string,[]byte,time.Time,null.Int/Bool/Float/String/Time,Rec} and wrappers {*τ,[]τ,map[string]τ,struct{X τ}}: " + d + "; per type: every value sequence of length<=2 over the full value alphabet, every length-3 sequence over 3 representatives × {null,deflate,snappy} × block size {0,1,size of two records,65536} × every subset of flush positions, reader rotating over {full reads, 1-byte reads, data+EOF, *bytes.Buffer, 16-byte *bufio.Reader, every other Read returning (0,nil)}; every length-3 sequence again with a flush after each record where the writer refuses the first write of one of the flushes once (nothing consumed) and the flush is retried; 66 multi-field record types (every arrangement of six *int64 / *string fields, and two mixed ones with slices, maps and nested pointers) with 4 value patterns in sequences of <=3 (allocation order inside one record); for the string and []byte leaves also records of 66–70 kB a 400-record block of >64 KiB (larger than the reader's read-ahead chunk) and a block of 9000 identical records (best-case compression ratio) under every codec; the file is read into T, into a fresh *T, and into a caller-owned *T already used by an earlier read that its callback abandoned at the last record; every record is compared twice: as deep-copied inside the callback, and as a plain struct copy kept by the caller until ReadFile has returned (banks left open); " + what + "; a case is one (type, sequence, configuration); non-trivial = encoding succeeded and the output reached the oracle"
 }
 
 func register(id string, w which, level, what string, assumptions []string) {
